@@ -307,6 +307,18 @@ M("C09", "v13-flag-set-on-known-key", [(LCF, ".and_modify(|value| value.f += 1)"
 M("C01", "v14-insert-short-circuits", (BF, ".fold(true, |acc, pos| acc & bs.put(pos));", ".fold(true, |acc, pos| acc && bs.put(pos));"), "R01-bloom-same-positions", "insert", base="benign/B14/patch.diff")
 M("C10", "v14-removes-new-count", (CH, "                    n: old,\n", "                    n: old + 1,\n"), "R10-paired", "add", base="benign/B14/patch.diff")
 
+# ======================================================================================= scale-function algebra (C04), bias table (C03)
+M("C04", "k2-normaliser-constant", (TD, "        self.delta / (4. * ((n as f64) / self.delta).ln() + 24.)", "        self.delta / (4. * ((n as f64) / self.delta).ln() + 21.)"), "R04-scale-width", "K2")
+M("C04", "k1-slope-doubled", (TD, "        self.delta / (2. * f64::consts::PI) * (2. * q - 1.).asin()", "        self.delta / f64::consts::PI * (2. * q - 1.).asin()"), "R04-scale-width", "K1")
+M("C04", "k0-slope", (TD, "        self.delta / 2. * q", "        self.delta / 4. * q"), "R04-scale-width", "K0")
+M("C04", "k2-inverse-off", (TD, "            z / (z + 1.)", "            z / (z + 2.)"), "R04-scale-inverse", "K2")
+M("C04", "k3-inverse-upper-branch", (TD, "                1. - (-k / x).exp() / 2.", "                1. - (-k / x).exp()"), "R04-scale-inverse", "K3")
+M("C04", "k1-inverse-missing-factor", (TD, "        ((k * 2. * f64::consts::PI / self.delta).sin() + 1.) / 2.", "        ((k * f64::consts::PI / self.delta).sin() + 1.) / 2."), "R04-scale-inverse", "K1")
+B("C04", "k2-log-of-quotient-split", (TD, "        self.x(n) * (q / (1. - q)).ln()", "        self.x(n) * (q.ln() - (1. - q).ln())"))
+B("C04", "k3-normaliser-log-split", (TD, "        self.delta / (4. * ((n as f64) / self.delta).ln() + 21.)", "        self.delta / (4. * ((n as f64).ln() - self.delta.ln()) + 21.)"))
+B("C04", "k1-two-pi-hoisted", (TD, "        self.delta / (2. * f64::consts::PI) * (2. * q - 1.).asin()", "        let two_pi = 2. * f64::consts::PI;\n        (2. * q - 1.).asin() * self.delta / two_pi"))
+M("C03", "bias-entry-digit-dropped", ("src/hyperloglog/data.rs", "30093.78", "3093.78"), "R03-bias-outlier", "BIAS_DATA_VEC")
+
 
 def main():
     out = os.path.join(os.path.dirname(os.path.abspath(__file__)), "corpus.json")
